@@ -26,9 +26,14 @@ RULE = ("random designs (1-D and 2-D/3-D over cat/cat_date/datetime/text/mr/ca) 
 ASSUMPTIONS = ["Spec.cubeOf is the back end's tabulation (checked per case in C01)"]
 
 
-def gen_case(rng):
-    nd = rng.choice([1, 2, 2, 2, 2, 3])
-    kinds = [rng.choice(["cat", "cat", "mr", "mr", "cat_date", "datetime", "text", "ca"]) for _ in range(nd)]
+def gen_case(rng, kinds=None, max_n=4):
+    """`kinds` (extension families): the variable kinds to use instead of drawing them"""
+    if kinds is not None:
+        kinds = list(kinds)
+        nd = len(kinds)
+    else:
+        nd = rng.choice([1, 2, 2, 2, 2, 3])
+        kinds = [rng.choice(["cat", "cat", "mr", "mr", "cat_date", "datetime", "text", "ca"]) for _ in range(nd)]
     if kinds.count("ca") > 1:
         f = kinds.index("ca")
         kinds = [k if k != "ca" or i == f else "cat" for i, k in enumerate(kinds)]
@@ -36,7 +41,7 @@ def gen_case(rng):
         kinds = [k if k != "ca" else "cat" for k in kinds]
     if "ca" in kinds:
         kinds = ["ca"]
-    case = sc.gen_case(rng, kinds=kinds, max_n=4, derived_items=True)
+    case = sc.gen_case(rng, kinds=kinds, max_n=max_n, derived_items=True)
     vars_, survey = sc.load(case)
     # zero-weight whole rows: weighted-empty but unweighted non-empty vectors
     if case["weighted"] and survey and rng.random() < 0.4:
@@ -134,13 +139,42 @@ def _n_valid_subtotals(d):
     return sum(1 for i in (d or {}).get("insertions", []) if i.get("hide") is not True)
 
 
+def slice_emptiness(spec, rk, ck, nr, nc):
+    """respondent-level emptiness (property text) of the rows and columns of one slice, from the Lean `slice_spec` output of
+    the UNWEIGHTED survey: a vector is empty iff no respondent is eligible for it over the opposing dimension; an MR vector
+    crossed with a non-MR: answered (selected or not) counts; MR x MR: only selected counts."""
+    urow = common.model_to_float(spec["urow_bases"])
+    ucol = common.model_to_float(spec["ucolumn_bases"])
+    utab = common.model_to_float(spec["utable_bases"])
+    if rk == "mr" and ck != "mr":
+        # eligible = answered item i with a valid column answer -> table base of the row's cells
+        # (for array columns: summed over the column items)
+        if ck == "cat":
+            rows_empty = [nc == 0 or utab[i][0] == 0 for i in range(nr)]
+        else:
+            rows_empty = [sum(ucol[i]) == 0 for i in range(nr)]
+    else:
+        rows_empty = [sum(urow[i]) == 0 for i in range(nr)]
+    if ck == "mr" and rk != "mr":
+        if rk == "cat":
+            cols_empty = [nr == 0 or utab[0][j] == 0 for j in range(nc)]
+        else:
+            cols_empty = [sum(urow[i][j] for i in range(nr)) == 0 for j in range(nc)]
+    else:
+        cols_empty = [sum(ucol[i][j] for i in range(nr)) == 0 for j in range(nc)]
+    return rows_empty, cols_empty
+
+
+def strand_emptiness(spec, kinds, n):
+    """1-D: a categorical row is empty iff its unweighted count is 0; an MR item iff nobody answered it"""
+    ub = common.model_to_float(spec["ubases"])
+    uc = common.model_to_float(spec["ucounts"])
+    return [(ub[i] == 0) if kinds == ["mr"] else (uc[i] == 0) for i in range(n)]
+
+
 def evaluate(case, louts, ctx):
     import copy
     vars_, survey = sc.load(case)
-    kinds = sc.kinds_of(vars_)
-    ctx.count("kinds:" + "x".join(kinds))
-    findings = []
-    key = None
     tr = case["transforms"]
     if case.get("wvalid_only"):
         from cr.cube.cube import Cube
@@ -152,6 +186,19 @@ def evaluate(case, louts, ctx):
         ctx.count("weighted_valid_counts_only")
     else:
         cube = sc.make_cube(case, transforms=copy.deepcopy(tr))
+    return judge(case, louts, ctx, cube)
+
+
+def judge(case, louts, ctx, cube, sfx="", alt_louts=None):
+    """visibility of every partition of `cube` (built by the caller from `case`) against the respondent-level statement.
+    `sfx` is appended to every locus (extension families name theirs); `alt_louts`: Lean outputs for a second reading of
+    "unweighted counts" -- a partition on whose emptiness the two readings differ is not judged (weaker reading)."""
+    vars_, survey = sc.load(case)
+    kinds = sc.kinds_of(vars_)
+    ctx.count("kinds:" + "x".join(kinds))
+    findings = []
+    key = None
+    tr = case["transforms"]
     rd = tr.get("rows_dimension", {})
     cd = tr.get("columns_dimension", {})
     if len(kinds) >= 2:
@@ -162,32 +209,14 @@ def evaluate(case, louts, ctx):
         for k in range(sc.nparts(vars_)):
             api, spec = louts[2 * k], louts[2 * k + 1]
             sl = cube.partitions[k]
-            urow = common.model_to_float(spec["urow_bases"])
-            ucol = common.model_to_float(spec["ucolumn_bases"])
-            utab = common.model_to_float(spec["utable_bases"])
             rk, ck = kinds[-2], kinds[-1]
             nr, nc = len(rkeys), len(ckeys)
-            # respondent-level emptiness (property text):  a vector is empty iff no respondent is eligible for it
-            # over the opposing dimension; MR vector crossed with a non-MR: answered (selected or not) counts;
-            # MR x MR: only selected counts.
-            if rk == "mr" and ck != "mr":
-                # eligible = answered item i with a valid column answer -> table base of the row's cells
-                # (for array columns: summed over the column items)
-                if ck == "cat":
-                    rows_empty = [nc == 0 or utab[i][0] == 0 for i in range(nr)]
-                else:
-                    rows_empty = [sum(ucol[i]) == 0 for i in range(nr)]
-            else:
-                rows_empty = [sum(urow[i]) == 0 for i in range(nr)]
-            if ck == "mr" and rk != "mr":
-                if rk == "cat":
-                    cols_empty = [nr == 0 or utab[0][j] == 0 for j in range(nc)]
-                else:
-                    cols_empty = [sum(urow[i][j] for i in range(nr)) == 0 for j in range(nc)]
-            else:
-                cols_empty = [sum(ucol[i][j] for i in range(nr)) == 0 for j in range(nc)]
-            sc.compare(findings, "model", "seam.rows_pruning_mask", rows_empty, api["rows_pruning_mask"], "spec-vs-model k=%d" % k)
-            sc.compare(findings, "model", "seam.columns_pruning_mask", cols_empty, api["columns_pruning_mask"], "spec-vs-model k=%d" % k)
+            rows_empty, cols_empty = slice_emptiness(spec, rk, ck, nr, nc)
+            if alt_louts is not None and slice_emptiness(alt_louts[2 * k + 1], rk, ck, nr, nc) != (rows_empty, cols_empty):
+                ctx.count("readings-disagree" + sfx)
+                continue
+            sc.compare(findings, "model", "seam.rows_pruning_mask" + sfx, rows_empty, api["rows_pruning_mask"], "spec-vs-model k=%d" % k)
+            sc.compare(findings, "model", "seam.columns_pruning_mask" + sfx, cols_empty, api["columns_pruning_mask"], "spec-vs-model k=%d" % k)
             rhid = _hidden_flags(rkeys, rd)
             chid = _hidden_flags(ckeys, cd)
             rprune = rd.get("prune") is True
@@ -199,7 +228,7 @@ def evaluate(case, louts, ctx):
             ro = common.call_impl(lambda: sl.row_order())
             co = common.call_impl(lambda: sl.column_order())
             if not isinstance(ro, list) or not isinstance(co, list):
-                findings.append({"kind": "spec", "locus": "slice.order.raises", "detail": "%r %r" % (ro, co)})
+                findings.append({"kind": "spec", "locus": "slice.order.raises" + sfx, "detail": "%r %r" % (ro, co)})
                 continue
             vis_r = [x for x in ro if x >= 0]
             vis_c = [x for x in co if x >= 0]
@@ -208,23 +237,23 @@ def evaluate(case, louts, ctx):
             if "order" in cd:
                 vis_c = sorted(vis_c)
             if len(set(ro)) != len(ro) or len(set(co)) != len(co):
-                findings.append({"kind": "spec", "locus": "slice.order.duplicate", "detail": "%r %r" % (ro, co)})
-            sc.compare(findings, "spec", "slice.row_order.visible-base", vis_r, exp_rows,
+                findings.append({"kind": "spec", "locus": "slice.order.duplicate" + sfx, "detail": "%r %r" % (ro, co)})
+            sc.compare(findings, "spec", "slice.row_order.visible-base" + sfx, vis_r, exp_rows,
                        "k=%d hidden=%s prune=%s empty=%s" % (k, rhid, rprune, rows_empty))
-            sc.compare(findings, "spec", "slice.column_order.visible-base", vis_c, exp_cols,
+            sc.compare(findings, "spec", "slice.column_order.visible-base" + sfx, vis_c, exp_cols,
                        "k=%d hidden=%s prune=%s empty=%s" % (k, chid, cprune, cols_empty))
-            sc.compare(findings, "spec", "slice.row_order.subtotal-count", len([x for x in ro if x < 0]), n_rsub, "k=%d" % k)
-            sc.compare(findings, "spec", "slice.column_order.subtotal-count", len([x for x in co if x < 0]), n_csub, "k=%d" % k)
+            sc.compare(findings, "spec", "slice.row_order.subtotal-count" + sfx, len([x for x in ro if x < 0]), n_rsub, "k=%d" % k)
+            sc.compare(findings, "spec", "slice.column_order.subtotal-count" + sfx, len([x for x in co if x < 0]), n_csub, "k=%d" % k)
             shape = common.call_impl(lambda: sl.shape)
-            sc.compare(findings, "spec", "slice.shape", shape, [len(exp_rows) + n_rsub, len(exp_cols) + n_csub], "k=%d" % k)
-            sc.compare(findings, "spec", "slice.is_empty", common.call_impl(lambda: sl.is_empty),
+            sc.compare(findings, "spec", "slice.shape" + sfx, shape, [len(exp_rows) + n_rsub, len(exp_cols) + n_csub], "k=%d" % k)
+            sc.compare(findings, "spec", "slice.is_empty" + sfx, common.call_impl(lambda: sl.is_empty),
                        (len(exp_rows) + n_rsub == 0) or (len(exp_cols) + n_csub == 0), "k=%d" % k)
             rl = common.call_impl(lambda: sl.row_labels)
             cl = common.call_impl(lambda: sl.column_labels)
             if isinstance(rl, list) and len(rl) != len(ro):
-                findings.append({"kind": "spec", "locus": "slice.row_labels.length", "detail": "%d vs %d" % (len(rl), len(ro))})
+                findings.append({"kind": "spec", "locus": "slice.row_labels.length" + sfx, "detail": "%d vs %d" % (len(rl), len(ro))})
             if isinstance(cl, list) and len(cl) != len(co):
-                findings.append({"kind": "spec", "locus": "slice.column_labels.length", "detail": "%d vs %d" % (len(cl), len(co))})
+                findings.append({"kind": "spec", "locus": "slice.column_labels.length" + sfx, "detail": "%d vs %d" % (len(cl), len(co))})
             hid = (nr - len(exp_rows)) + (nc - len(exp_cols))
             if hid > 0 and exp_rows and exp_cols:
                 key = ("x".join(kinds), repr(tr), tuple(ro), tuple(co))
@@ -233,36 +262,46 @@ def evaluate(case, louts, ctx):
             ctx.count("subtotals_pruned", int((cprune and all(cols_empty) and _n_valid_subtotals(rd) > 0) or
                                               (rprune and all(rows_empty) and _n_valid_subtotals(cd) > 0)))
     else:
-        api, spec = louts[0], louts[1]
-        st = cube.partitions[0]
-        v = vars_[0]
-        keys = sc.element_keys(v)
-        ub = common.model_to_float(spec["ubases"])
-        uc = common.model_to_float(spec["ucounts"])
-        # 1-D: a categorical row is empty iff its unweighted count is 0; an MR item iff nobody answered it
-        empty = [(ub[i] == 0) if kinds == ["mr"] else (uc[i] == 0) for i in range(len(keys))]
-        sc.compare(findings, "model", "seam.strand.pruning_mask", empty, api["pruning_mask"], "spec-vs-model")
-        hid = _hidden_flags(keys, rd)
-        prune = rd.get("prune") is True
-        exp = [i for i in range(len(keys)) if not hid[i] and not (prune and empty[i])]
-        ro = common.call_impl(lambda: st.row_order())
-        if not isinstance(ro, list):
-            findings.append({"kind": "spec", "locus": "strand.order.raises", "detail": repr(ro)})
-        else:
-            vis = [x for x in ro if x >= 0]
-            if "order" in rd:
-                vis = sorted(vis)
-            if len(set(ro)) != len(ro):
-                findings.append({"kind": "spec", "locus": "strand.order.duplicate", "detail": "%r" % (ro,)})
-            sc.compare(findings, "spec", "strand.row_order.visible-base", vis, exp,
-                       "hidden=%s prune=%s empty=%s" % (hid, prune, empty))
-            nsub = _n_valid_subtotals(rd)
-            sc.compare(findings, "spec", "strand.row_order.subtotal-count", len([x for x in ro if x < 0]), nsub, "")
-            sc.compare(findings, "spec", "strand.shape", common.call_impl(lambda: st.shape), [len(exp) + nsub], "")
-            sc.compare(findings, "spec", "strand.is_empty", common.call_impl(lambda: st.is_empty), len(exp) + nsub == 0, "")
-            if len(exp) < len(keys) and exp:
-                key = ("x".join(kinds), repr(tr), tuple(ro))
+        keys = sc.element_keys(vars_[0])
+        alt = None if alt_louts is None else alt_louts[1]
+        key = judge_strand(findings, ctx, cube.partitions[0], keys, kinds, louts[0], louts[1], tr, sfx=sfx, alt_spec=alt)
     return findings, key
+
+
+def judge_strand(findings, ctx, st, keys, kinds, api, spec, tr, sfx="", alt_spec=None, where=""):
+    """one strand against the 1-D statement; returns the non-triviality key (or None)"""
+    rd = tr.get("rows_dimension", {})
+    key = None
+    empty = strand_emptiness(spec, kinds, len(keys))
+    if alt_spec is not None and strand_emptiness(alt_spec, kinds, len(keys)) != empty:
+        ctx.count("readings-disagree" + sfx)
+        return None
+    sc.compare(findings, "model", "seam.strand.pruning_mask" + sfx, empty, api["pruning_mask"], where + "spec-vs-model")
+    hid = _hidden_flags(keys, rd)
+    prune = rd.get("prune") is True
+    exp = [i for i in range(len(keys)) if not hid[i] and not (prune and empty[i])]
+    ro = common.call_impl(lambda: st.row_order())
+    if not isinstance(ro, list):
+        findings.append({"kind": "spec", "locus": "strand.order.raises" + sfx, "detail": where + repr(ro)})
+    else:
+        vis = [x for x in ro if x >= 0]
+        if "order" in rd:
+            vis = sorted(vis)
+        if len(set(ro)) != len(ro):
+            findings.append({"kind": "spec", "locus": "strand.order.duplicate" + sfx, "detail": where + "%r" % (ro,)})
+        sc.compare(findings, "spec", "strand.row_order.visible-base" + sfx, vis, exp,
+                   where + "hidden=%s prune=%s empty=%s" % (hid, prune, empty))
+        nsub = _n_valid_subtotals(rd)
+        sc.compare(findings, "spec", "strand.row_order.subtotal-count" + sfx, len([x for x in ro if x < 0]), nsub, where)
+        sc.compare(findings, "spec", "strand.shape" + sfx, common.call_impl(lambda: st.shape), [len(exp) + nsub], where)
+        sc.compare(findings, "spec", "strand.is_empty" + sfx, common.call_impl(lambda: st.is_empty), len(exp) + nsub == 0, where)
+        rl = common.call_impl(lambda: st.row_labels)
+        if isinstance(rl, list) and len(rl) != len(ro):
+            findings.append({"kind": "spec", "locus": "strand.row_labels.length" + sfx, "detail": where + "%d vs %d" % (len(rl), len(ro))})
+        if len(exp) < len(keys) and exp:
+            key = ("x".join(kinds), repr(tr), tuple(ro))
+        ctx.count("pruned_strand_rows", sum(1 for i in range(len(keys)) if prune and empty[i]))
+    return key
 
 
 def describe(case):
